@@ -669,6 +669,12 @@ func txCase() {
 	}
 	tx.SetPrograms(ps)
 	data = unsigned(tx)
+	finishTx(tx, refs, s.scripts, ps, data, kind)
+}
+
+// finishTx sends a built transaction through checkTransactionSignature and
+// GetTxProgramHashes, logs both for the model and evaluates the statement.
+func finishTx(tx interfaces.Transaction, refs map[*common2.Input]common2.Output, scripts [][]byte, ps []*pg.Program, data []byte, kind string) {
 	t := &sigkit.Tables{}
 	for _, p := range ps {
 		t.AddProgram(p)
@@ -687,15 +693,17 @@ func txCase() {
 	i := next()
 	addBase(fmt.Sprintf("CTx %d %s %s %s %s %s", i, sigkit.CoqHashes(refList), lib.CoqList(attrs), progsCoq, t.Coq(data), lib.CoqBool(acc)))
 	in := map[string]interface{}{"op": "checkTransactionSignature", "kind": kind, "unsigned": sigkit.Hex(data),
-		"refs": sigkit.HashesJSON(refList), "scripts": s.scripts, "programs": progsJSON, "accepted": acc, "panicked": pan}
+		"refs": sigkit.HashesJSON(refList), "scripts": scripts, "programs": progsJSON, "accepted": acc, "panicked": pan}
 	st.LogCase(run.Out, i, in)
 	st.Count(sigkit.Digest(kind, fmt.Sprint(acc)), true, "checkTransactionSignature:"+outcome(acc, pan))
 	if acc { // the statement: every distinct spent address / script hash has an authorising program
 		need := map[common.Uint168]bool{}
+		spent := map[common.Uint168]bool{}
 		for _, h := range refList {
 			need[h] = true
+			spent[h] = true
 		}
-		for _, d := range s.scripts {
+		for _, d := range scripts {
 			if h, err := common.Uint168FromBytes(d); err == nil {
 				need[*h] = true
 			}
@@ -709,6 +717,11 @@ func txCase() {
 					}
 				}
 			}
+			if !found && h[0] == pCross && spent[h] {
+				// the known gap (b) applies only when the spent address itself has the CrossChain prefix
+				st.Fail(sigCrossChain, "checkTransactionSignature: CrossChain-prefix address spent by a program whose code does not hash to it", in)
+				continue
+			}
 			if !found {
 				st.Fail("checkTransactionSignature:accepted-without-authorising-program",
 					"transaction accepted although address "+sigkit.Hex(h[:])+" has no program with matching code hash and valid signatures", in)
@@ -719,10 +732,74 @@ func txCase() {
 	hs, err := blockchain.GetTxProgramHashes(tx, refs)
 	j := next()
 	addBase(fmt.Sprintf("CHashes %d %s %s %s %s", j, sigkit.CoqHashes(refList), lib.CoqList(attrs), lib.CoqBool(err == nil), sigkit.CoqHashes(sigkit.SortedHashes(hs))))
-	st.LogCase(run.Out, j, map[string]interface{}{"op": "GetTxProgramHashes", "refs": sigkit.HashesJSON(refList), "scripts": s.scripts, "ok": err == nil, "out": sigkit.HashesJSON(sigkit.SortedHashes(hs))})
+	st.LogCase(run.Out, j, map[string]interface{}{"op": "GetTxProgramHashes", "refs": sigkit.HashesJSON(refList), "scripts": scripts, "ok": err == nil, "out": sigkit.HashesJSON(sigkit.SortedHashes(hs))})
 	st.Count(sigkit.Digest("gh", kind, fmt.Sprint(len(hs))), len(refList) > len(hs), "GetTxProgramHashes")
 	if i%53 == 1 {
 		st.Sample(map[string]interface{}{"op": "checkTransactionSignature", "kind": kind, "accepted": acc, "hashes": len(hs)})
+	}
+}
+
+// collisionCases: required hashes that agree on the 20-byte code hash but
+// differ in the prefix (a spent address and a Script attribute), all prefix
+// pairs, with only a stranger's program / only the owner's program / the
+// owner's program twice.  GetTxProgramHashes must keep both 21-byte hashes.
+func collisionCases() {
+	owner, att, att2 := keys[2], keys[5], keys[6]
+	type spentKind struct {
+		pre  byte
+		code []byte
+		sign func(d []byte) *pg.Program
+	}
+	std := sigkit.StdCode(owner)
+	multi := sigkit.RawMulti(1, encs([]*sigkit.Key{owner, keys[7]}), 2, 0xae)
+	signStd := func(d []byte) *pg.Program { return &pg.Program{Code: std, Parameter: sigkit.SigScript(owner, d)} }
+	signMulti := func(d []byte) *pg.Program { return &pg.Program{Code: multi, Parameter: sigkit.SigScript(owner, d)} }
+	spents := []spentKind{{pStd, std, signStd}, {pDep, std, signStd}, {pMulti, multi, signMulti}}
+	for _, sp := range spents {
+		victim := sigkit.Hash(sp.pre, sp.code)
+		for _, q := range []byte{pStd, pDep, pMulti, pCross, pDID, 0x3f, 0x00} {
+			if q == sp.pre {
+				continue
+			}
+			alias := victim
+			alias[0] = q // same code hash, other prefix
+			for variant := 0; variant < 3; variant++ {
+				tx, refs := buildTx(txSpec{refs: []common.Uint168{victim}, scripts: [][]byte{alias[:]}})
+				data := unsigned(tx)
+				var ps []*pg.Program
+				name := ""
+				switch variant {
+				case 0: // only a stranger's program, of the shape the alias prefix asks for
+					name = "stranger"
+					if q == pCross {
+						ps = []*pg.Program{{Code: sigkit.RawMulti(1, encs([]*sigkit.Key{att, att2}), 2, 0xaf), Parameter: sigkit.SigScript(att, data)}}
+					} else if q == pMulti {
+						ps = []*pg.Program{{Code: sigkit.RawMulti(1, encs([]*sigkit.Key{att, att2}), 2, 0xae), Parameter: sigkit.SigScript(att, data)}}
+					} else {
+						ps = []*pg.Program{{Code: sigkit.StdCode(att), Parameter: sigkit.SigScript(att, data)}}
+					}
+				case 1:
+					name = "owner-once"
+					ps = []*pg.Program{sp.sign(data)}
+				default:
+					name = "owner-twice"
+					ps = []*pg.Program{sp.sign(data), sp.sign(data)}
+				}
+				tx.SetPrograms(ps)
+				finishTx(tx, refs, [][]byte{alias[:]}, ps, data, fmt.Sprintf("collision:%02x+script%02x:%s", sp.pre, q, name))
+			}
+		}
+	}
+	// two spent addresses of one code hash (standard + deposit of one key), owner signs twice / once
+	for variant := 0; variant < 2; variant++ {
+		tx, refs := buildTx(txSpec{refs: []common.Uint168{sigkit.Hash(pStd, std), sigkit.Hash(pDep, std)}})
+		data := unsigned(tx)
+		ps := []*pg.Program{signStd(data)}
+		if variant == 0 {
+			ps = append(ps, signStd(data))
+		}
+		tx.SetPrograms(ps)
+		finishTx(tx, refs, nil, ps, data, fmt.Sprintf("collision:std+deposit-spent:%dprograms", len(ps)))
 	}
 }
 
@@ -889,7 +966,6 @@ func shapeCase() {
 	st.LogCase(run.Out, i, map[string]interface{}{"op": "shape", "code": sigkit.Hex(code), "std": s, "schnorr": c, "multisig": m})
 	st.Count(sigkit.Digest("shape", sigkit.Hex(code)), s || c || m, "shape")
 }
-
 
 // ---------------------------------------------------------------- exemptions of checkTransactionSignature
 
@@ -1201,6 +1277,8 @@ func main() {
 	}
 	// ---- exemption table (regenerated) and every transaction type end to end
 	typedCases(exemptions())
+	// ---- code-hash collisions between required hashes (fixed, every run)
+	collisionCases()
 	// ---- whole transactions
 	for i := 0; i < run.N(70, 3000); i++ {
 		txCase()
